@@ -329,10 +329,28 @@ def cross_run_state(idx: "Index", prefix: str = ""):
                     for pre in (cname, "self", "cls"):
                         shared[f"{pre}.{tgt.id}"] = ("class", st.lineno)
         nstate += len(shared)
+        def scalar_only(fn_):
+            """every parameter is annotated str / int / bool (a pure helper on names: memoising it cannot carry anything
+            of an earlier model over, and equal keys are equal values -- no 9 == 9.0 == True collision for str)"""
+            a_ = fn_.args
+            params = a_.posonlyargs + a_.args + a_.kwonlyargs
+            if not params or a_.vararg or a_.kwarg:
+                return False
+            anns = [dotted(x.annotation) if x.annotation is not None else None for x in params]
+            if any(x != "str" for x in anns):
+                return False
+            # and it reads nothing but its parameters, locals, builtins, imported modules and other module-level functions
+            local = {x.arg for x in params} | {n_.id for n_ in ast.walk(fn_) if isinstance(n_, ast.Name) and isinstance(n_.ctx, ast.Store)}
+            fnames = {f_.name for f_ in m.all_functions()}
+            for n_ in ast.walk(fn_):
+                if isinstance(n_, ast.Name) and isinstance(n_.ctx, ast.Load) and n_.id not in local and n_.id not in fnames \
+                        and n_.id not in dir(__builtins__) and n_.id not in getattr(m, "imports", {}) and n_.id in shared:
+                    return False
+            return True
         for fn in m.all_functions():
             for d in fn.decorator_list:
                 dn = dotted(d.func) if isinstance(d, ast.Call) else dotted(d)
-                if (dn or "").split(".")[-1] in ("lru_cache", "cache", "cached_property"):
+                if (dn or "").split(".")[-1] in ("lru_cache", "cache", "cached_property") and not scalar_only(fn):
                     hits.append((rel, f"{rel}:{fn.name}:@{dn}",
                                  f"{fn.name} is memoised ({dn}): results computed for an earlier model are reused", fn.lineno))
             if not shared:
